@@ -461,6 +461,94 @@ def large_cases(draw, name, tier):
 
 
 # ---------------------------------------------------------------------------
+# tiny base points: the zeroth coefficient must be accurate RELATIVE to its own size (f(x0) ~ x0 for these functions;
+# the max(1, .) scale of the other buckets would hide a zeroth coefficient computed by a cancelling formula)
+# ---------------------------------------------------------------------------
+
+TINY = ['expm1', 'log1p', 'sin', 'tan', 'arcsin', 'arctan', 'sinh', 'tanh', 'erf', 'erfi', 'dawsn', 'square']
+TOL_TINY = 1e-13
+
+
+def prop_tiny(case, stats):
+    name = case['f']
+    call, fmp, _, _, tol = UNARY[name]
+    if case['entry'] == 'method':
+        call = METHOD[name]
+    x = case['x']
+    y = guard(call, UTPM(x.copy()))
+    if not isinstance(y, UTPM) or y.data.shape != x.shape:
+        raise Violation('%s: result type/shape' % name)
+    for pos in _positions(case, x):
+        sl = (slice(None),) + pos
+        ref = mp_taylor(fmp, list(x[sl]))
+        got = y.data[sl]
+        r0 = float(ref[0])
+        if r0 != 0.0 and np.isfinite(r0):
+            e = abs(float(got[0]) - r0) / abs(r0)
+            stats.err(min(e, 1.0))
+            if e > TOL_TINY:
+                raise Violation('%s at the tiny base point %r: zeroth coefficient %r, reference %r (error %.2e relative to the value itself)'
+                                % (name, float(x[sl][0]), float(got[0]), r0, e))
+        _compare(got, ref, tol, stats, '%s(tiny base point)[p=%d,idx=%s]' % (name, pos[0], pos[1:]))
+
+
+@st.composite
+def tiny_cases(draw, name, tier):
+    D, P = draw(gen.dims(Dmax=4, Pmax=3))
+    shape = draw(st.sampled_from([(), (2,), (3,)]))
+    x = draw(gen.utpm_data(D, P, shape, gen.nice_floats(-1.0, 1.0)))
+    mant = draw(gen.float_array((P,) + shape, gen.interval_union((1.0, 9.99), (-9.99, -1.0)), sparse=False))
+    expo = draw(gen.float_array((P,) + shape, st.sampled_from([-5.0, -7.0, -9.0, -12.0, -16.0, -17.0, -20.0, -40.0, -100.0]), sparse=False))
+    x[0] = mant * 10.0 ** expo
+    return {'f': name, 'entry': draw(st.sampled_from(['global', 'method'])), 'x': x, 'pos': None}
+
+
+# ---------------------------------------------------------------------------
+# the same polynomial object evaluated again after it has been updated in place: f(x) is a function of the current
+# coefficients of x only (nothing may be remembered per object), and a result handed out earlier stays what it was
+# ---------------------------------------------------------------------------
+
+def prop_recall(case, stats):
+    name = case['f']
+    call = UNARY[name][0] if case['entry'] == 'global' else METHOD[name]
+    x1, x2 = case['x'], case['x2']
+    x = UTPM(x1.copy())
+    y1 = guard(call, x)
+    snap = y1.data.tobytes()
+    how = case['update']
+    if how == 'data':
+        x.data[...] = x2
+    elif how == 'setitem':
+        x[...] = UTPM(x2.copy())
+    else:
+        x += UTPM(x2 - x1)
+        x2 = x.data.copy()
+    y2 = guard(call, x)
+    ref = guard(call, UTPM(x2.copy()))
+    if y1.data.tobytes() != snap:
+        raise Violation('%s: the result of the first call changed when the operand was updated in place and the function called again' % name)
+    if not isinstance(y2, UTPM) or y2.data.shape != ref.data.shape:
+        raise Violation('%s: result type/shape' % name)
+    scale = max(1.0, float(np.max(np.abs(ref.data)))) if np.all(np.isfinite(ref.data)) else None
+    if scale is None:
+        raise Inconclusive('non-finite')
+    e = float(np.max(np.abs(y2.data - ref.data))) / scale if np.all(np.isfinite(y2.data)) else float('inf')
+    stats.err(min(e, 1.0))
+    if e > 1e-13:
+        raise Violation('%s(x) after updating the same object x in place (%s) differs from %s of a fresh polynomial with the same coefficients by %.2e'
+                        % (name, how, name, e))
+
+
+@st.composite
+def recall_cases(draw, name, tier):
+    _, _, dom, cdom, _ = UNARY[name]
+    D, P = draw(gen.dims(Dmax=4, Pmax=3))
+    shape = draw(gen.shapes(max_rank=2, max_side=3))
+    x = draw(gen.utpm_data(D, P, shape, dom))
+    x2 = draw(gen.utpm_data(D, P, shape, dom))
+    return {'f': name, 'entry': draw(st.sampled_from(['global', 'method'])), 'x': x, 'x2': x2,
+            'update': draw(st.sampled_from(['data', 'setitem', 'iadd']))}
+
 
 def _n(tier, name):
     if tier == 'quick':
@@ -489,4 +577,12 @@ def buckets(tier):
     for name in ('absolute', 'abs', 'fabs', 'sign', 'minimum', 'maximum', 'botched_clip'):
         bl.append(Bucket('kink:' + name, (lambda name=name: kink_cases(name, tier)), prop_kink,
                          {'quick': 150, 'thorough': 1500}, nontrivial=_nontrivial, classes=_classes))
+    for name in TINY:
+        bl.append(Bucket('tiny:' + name, (lambda name=name: tiny_cases(name, tier)), prop_tiny,
+                         {'quick': 20 if name in SLOW else 40, 'thorough': 300}, nontrivial=(lambda case: case['x'].shape[0] >= 2),
+                         classes=_classes0, weight=6.0 if name in SLOW else 1.0))
+    for name in UNARY:
+        bl.append(Bucket('recall:' + name, (lambda name=name: recall_cases(name, tier)), prop_recall,
+                         {'quick': 40, 'thorough': 300}, nontrivial=(lambda case: case['x'].shape[0] >= 2 and not np.array_equal(case['x'], case['x2'])),
+                         classes=(lambda case: _classes0(case) + ['update=' + case['update']])))
     return bl
